@@ -3,6 +3,7 @@ From Coq Require Import List Bool Arith.
 From RV Require Import M_Transfer P_Transfer.
 From Coq Require Import ZArith.
 From RV Require M_SchedCache P_SchedCache.
+From RV Require M_LockWaiters P_LockWaiters.
 Import ListNotations.
 
 (* whatever faults hit a transfer (a failing exchange, the caller's timeout at any await), it never
@@ -79,3 +80,27 @@ Theorem C18_early_assignment_refuted :
   snd (M_SchedCache.run false M_SchedCache.init P_SchedCache.slip_ops) =
     [M_SchedCache.Returned (Some 1%Z); M_SchedCache.Raised; M_SchedCache.Returned (Some 1%Z)].
 Proof. exact P_SchedCache.early_assignment_refuted. Qed.
+
+(* SEVERAL zones' transfers at once (M_LockWaiters: the polling loop of _obtain_lock, `await _obtain_lock` and THEN `try ... finally _release_lock`,
+   re-checked in the source on every run): for EVERY interleaving of starts, polls, fragment exchanges and ends -- completions, failures and callers
+   giving up, while waiting for the lock or while holding it -- every fragment is exchanged while the lock is held by its own zone ... *)
+Theorem C18_exchanges_under_own_lock : forall es z h,
+  In (z, h) (M_LockWaiters.exch (M_LockWaiters.run false M_LockWaiters.init es)) -> h = Some z.
+Proof. exact P_LockWaiters.exchanges_under_own_lock. Qed.
+(* ... at most one transfer holds the lock ... *)
+Theorem C18_one_holder : forall es z z',
+  M_LockWaiters.ts (M_LockWaiters.run false M_LockWaiters.init es) z = M_LockWaiters.THolding ->
+  M_LockWaiters.ts (M_LockWaiters.run false M_LockWaiters.init es) z' = M_LockWaiters.THolding -> z = z'.
+Proof. exact P_LockWaiters.one_holder. Qed.
+(* ... and a transfer that ends while still waiting "leaves nothing behind": the lock and every other transfer are as they were *)
+Theorem C18_waiter_ending_releases_nothing : forall s z,
+  M_LockWaiters.ts s z = M_LockWaiters.TWaiting ->
+  M_LockWaiters.lock (M_LockWaiters.step false s (M_LockWaiters.EEnd z)) = M_LockWaiters.lock s /\
+  forall k, k <> z -> M_LockWaiters.ts (M_LockWaiters.step false s (M_LockWaiters.EEnd z)) k = M_LockWaiters.ts s k.
+Proof. exact P_LockWaiters.waiter_ending_releases_nothing. Qed.
+(* the slip "obtain the lock INSIDE the try": a waiter that gives up frees the running transfer's lock, the next waiter starts at once and the
+   running transfer's next fragment is exchanged under another zone's lock; the code as it is keeps the lock where it was *)
+Theorem C18_lock_inside_try_refuted :
+  M_LockWaiters.exch (M_LockWaiters.run true M_LockWaiters.init P_LockWaiters.slip_events) = [(0, Some 0); (0, Some 2); (2, Some 2)] /\
+  M_LockWaiters.exch (M_LockWaiters.run false M_LockWaiters.init P_LockWaiters.slip_events) = [(0, Some 0); (0, Some 0)].
+Proof. exact P_LockWaiters.lock_inside_try_refuted. Qed.
